@@ -120,8 +120,9 @@ def cmd_run(args):
             return 2
     agg = runner.search(prop, tier, seed, wall, a.workers)
     known = runner.load_known()
+    n_known = runner.report_known_findings(prop, known)
     new = runner.handle_violations(prop, agg, known)
-    runner.write_evidence(prop, tier, seed, agg, st_msg, new)
+    runner.write_evidence(prop, tier, seed, agg, st_msg, new, extra={'known_findings_reproduced': n_known})
     c = agg['counters']
     print('runs=%d distinct_nontrivial=%d seam_steps=%d sim_seconds=%.0f wall=%.1fs (%.0f runs/h)' % (
         agg['runs'], len(agg['digests']), agg['steps'], agg['sim_span'], agg['wall'],
